@@ -88,11 +88,18 @@ def gen_series(rnd, kind):
         ds.append(D(1982, 4, rnd.randint(1, 28)))
     elif kind == "starts-late":
         ds = walk(D(1981, rnd.randint(1, 4), rnd.randint(1, 28)), D(1981, 10, 30), 15, 80, 5)
+    elif kind == "shallow":
+        ds = walk(D(1980, 9, rnd.randint(1, 20)), D(1981, 11, 30), 15, 50, 14)
     elif kind in ("plateau", "duplicate-dates"):
         ds = walk(D(1980, rnd.randint(6, 9), rnd.randint(1, 28)), D(1981, 11, 30), 8, 60, 16)
     else:  # single
         ds = [D(1981, rnd.randint(1, 12), rnd.randint(1, 28))]
     recs = [(d.strftime("%m%d%Y"), lv()) for d in ds]
+    if kind == "shallow":
+        # the water table inside the top decimetre: levels in [0, 1) dm, reached and left by interpolation
+        for i in range(len(recs)):
+            recs[i] = (recs[i][0], rnd.choice([0.5, 0.25, 0.0, 0.9, 0.99, round(rnd.uniform(0, 1), 2), round(rnd.uniform(1, 3), 1), round(rnd.uniform(2, 12), 1)]))
+        recs[1] = (recs[1][0], 0.5); recs[2] = (recs[2][0], 0.25); recs[3] = (recs[3][0], 4.0); recs[4] = (recs[4][0], 0.0)
     if kind == "plateau":
         # the level is held over 2..5 consecutive readings, then changes (logger files)
         i = 0
@@ -117,7 +124,7 @@ def gen_series(rnd, kind):
     return recs
 
 
-SERIES_KINDS = ["plateau", "plateau", "ends-mid-run", "before-start", "last-on-start", "covers-run", "starts-late", "single", "duplicate-dates"]
+SERIES_KINDS = ["plateau", "plateau", "shallow", "ends-mid-run", "before-start", "last-on-start", "covers-run", "starts-late", "single", "duplicate-dates"]
 BOUNDARY_PHASES = [0, 1, 79, 80, 81, 200, 359, 360, 361, -1, -360, 720]
 
 
@@ -356,6 +363,7 @@ def correspond(ctx):
         cover.append({"line": t["line"], "kind": plan[t["line"]]["what"].get("series"), "records": len(t["dates"]),
                       "days_before_first": sum(1 for q in t["q"] if q < first), "days_on_a_date": sum(1 for q in t["q"] if q in set(t["dates"])),
                       "days_from_last_date_on": sum(1 for q in t["q"] if q >= last),
+                      "days_level_below_1": sum(1 for l_ in t["level"] if 0 <= float.fromhex(l_) < 1),
                       "plateau_rows": sum(1 for a_, b_ in zip(t["vals"], t["vals"][1:]) if a_ == b_),
                       "duplicate_dates": len(t["dates"]) - len(set(t["dates"])), "starts": "after-last" if t["q"][0] > last else
                       "on-last" if t["q"][0] == last else "before-last", "last_segment_flat": flat})
@@ -370,6 +378,7 @@ def correspond(ctx):
             "a plateau (equal consecutive levels, then a change) inside a run": any(x["plateau_rows"] > 0 for x in cover),
             "duplicate dates": any(x["duplicate_dates"] > 0 for x in cover)}
     need["a single-record series"] = any(x["records"] == 1 for x in cover)
+    need["days with the level inside [0, 1) dm"] = any(x.get("days_level_below_1", 0) > 20 for x in cover)
     need["soilId on the line differs from the polygon SID, with and without gwId"] = \
         {bool(plan[r_["line"]]["what"].get("gwId")) for r_ in runs if plan[r_["line"]]["what"].get("series") == "soilId-differs-from-polygon-SID" and r_["success"]} == {True, False}
     need["run pairs in one session"] = sum(1 for r_ in runs if r_.get("shared_session")) >= 8
